@@ -101,6 +101,21 @@ type scope struct {
 	parent    *scope
 	variables VarMap
 	blocks    map[string]*BlockNode
+
+	// callersVars is set while variables is the very map the caller passed to Execute
+	callersVars bool
+}
+
+// ownVariables makes sure that variables can be written to: the map a caller
+// passed to Execute is the caller's; it is copied before the first write.
+func (s *scope) ownVariables() {
+	if s.callersVars {
+		vars := make(VarMap, len(s.variables)+1)
+		for k, v := range s.variables {
+			vars[k] = v
+		}
+		s.variables, s.callersVars = vars, false
+	}
 }
 
 func (s scope) sortedBlocks() []string {
@@ -144,6 +159,7 @@ func (state *Runtime) setValue(name string, val reflect.Value) error {
 	sc := state.scope
 	for sc != nil {
 		if _, ok := sc.variables[name]; ok {
+			sc.ownVariables()
 			sc.variables[name] = val
 			return nil
 		}
@@ -162,6 +178,7 @@ func (state *Runtime) LetGlobal(name string, val interface{}) {
 		sc = sc.parent
 	}
 
+	sc.ownVariables()
 	sc.variables[name] = reflect.ValueOf(val)
 }
 
